@@ -163,9 +163,12 @@ SwizzleRanks_ == /\ AsgCall("swizzleRanks")
                         /\ Adv /\ Rest(<<stack, err, upd>>)
 SplitUniformA_ == /\ AsgCall("splitUniform")
                  /\ LET o == Obj(I.e.fn.obj)  d == KwInt(I.e, "depth", 0)  stepv == Eval(I.e.args[1], env, store) IN
-                    IF ~(stepv.d = 1 /\ stepv.n > 0) THEN Fail("splitUniform: step is not a positive integer")
+                    \* the library partitions by coordinate ranges [i * step, (i + 1) * step) for any positive number; a follower reached through a
+                    \* fractional coefficient gets a fractional step (1 / 2 * 3); steps that are multiples of 1/SCALE are exact in the model
+                    IF stepv.k # "num" \/ stepv.n <= 0 THEN Fail("splitUniform: step is not a positive number")
+                    ELSE IF (stepv.n * SCALE) % stepv.d # 0 THEN Fail("splitUniform: step is not a multiple of 1/12 (outside the reference model)")
                     ELSE IF d >= Len(o.ids) THEN Fail("splitUniform: depth out of range")
-                    ELSE /\ NewTensor(I.dst, SplitIds(o.ids, d), SplitUniform(Rel(store, o), d, stepv.n * SCALE, KwScaled(I.e, "pre_halo"), KwScaled(I.e, "post_halo"), variant.haloOnly))
+                    ELSE /\ NewTensor(I.dst, SplitIds(o.ids, d), SplitUniform(Rel(store, o), d, ScaledOf(stepv), KwScaled(I.e, "pre_halo"), KwScaled(I.e, "post_halo"), variant.haloOnly))
                          /\ Adv /\ Rest(<<stack, err, upd>>)
 SplitEqualA_ == /\ AsgCall("splitEqual")
                /\ LET o == Obj(I.e.fn.obj)  n == Eval(I.e.args[1], env, store) IN
